@@ -467,17 +467,19 @@ class Fingerprints(Harness):
 def tasks(tier):
     q = tier == 'quick'
     T = []
-    nls = [65, 129, 257, 385, 513] if q else [65, 97, 129, 193, 256, 257, 258, 385, 513, 1025, 2049]
+    # thorough: the property's grid - every RSA modulus size from 512 to 16384 bits in steps of 64 (n = bits/8 + 1 bytes with the leading zero) - plus moduli
+    # without a leading zero byte and two odd lengths off the grid
+    nls = [65, 129, 257, 385, 513] if q else sorted(set(list(range(65, 2050, 8)) + list(range(64, 2049, 64)) + [97, 258, 1027]))
     for n in nls:
         T.append(Extract('ssh-rsa', n))
     T.append(Extract('ssh-ed25519', 32))
-    for ca, calens in (('ssh-rsa', [129, 257, 513] if q else [129, 257, 385, 513, 1025]), ('ssh-ed25519', [32]),
+    for ca, calens in (('ssh-rsa', [129, 257, 513] if q else list(range(65, 1026, 32)) + [128, 256, 2049]), ('ssh-ed25519', [32]),
                        ('ecdsa-sha2-nistp256', [32]), ('ecdsa-sha2-nistp384', [48]), ('ecdsa-sha2-nistp521', [66])):
         for cl in calens:
             T.append(Extract('ssh-rsa-cert', 257, ca, cl))
             T.append(Extract('ssh-ed25519-cert', 32, ca, cl))
     if not q:
-        for n in (129, 385, 513):
+        for n in list(range(65, 1026, 64)) + [2049]:
             T.append(Extract('ssh-rsa-cert', n, 'ssh-rsa', 257))
     for kexname in ('curve25519', 'nistp256', 'group14'):
         for order in (('ssh-rsa-cert-v01@openssh.com', 'ssh-ed25519'), ('ssh-ed25519-cert-v01@openssh.com', 'ssh-ed25519', 'ssh-rsa'), ('ssh-rsa', 'ssh-ed25519-cert-v01@openssh.com')):
